@@ -83,7 +83,7 @@ CHECKS['C19'] = dict(
     design='6/C19', technique='Coq proofs over worker proxy model and caller timeline model + differential test of LoggerFileProxy + real-run sampling',
     note='Theorems are about Model/Log.v. Tie: Gen/SrcParams.v (LoggerFileProxy.flush clears?, streams flushed in _subprocess_func finally?, _consume_log_queue after executor.wait?), correspondence of the real LoggerFileProxy with the worker model, real runs. Print Assumptions: closed.')
 CHECKS['C14'] = dict(
-    text='Proved (Hoare logic over an exception+tick monad, IntrProofs.v): for every graph, worker count, oracle and every position of one or two interrupts among the ticks (entries/exits of start_task, submit_task, executor.submit, wait, Future.result, complete_task, remove_results, cancel, stop), once an interrupt has been delivered the run ends with KeyboardInterrupt - never a normal return, LabError, or the KeyError of a re-yielded task (C14_interrupt_raises_KeyboardInterrupt), given the pop-before-yield generator, the LabError-swallowing drain/stop code and cancel-before-stop read from the source; each ingredient is shown necessary by a model witness that was replayed on the implementation (C14_refuted_without). Also proved: the except-branch starts no worker and records no submission (C14_handler_starts_nothing), a single interrupt terminates no worker (C14_single_interrupt_terminates_no_worker) and KeyboardInterrupt leaves run_tasks only once every registered future has been consumed (C14_single_interrupt_waits_for_registered). Clauses validated by injection rather than proved: no task started after the interrupt, running tasks finish and are cached, workers terminated after the second interrupt, cache consistency. PARTIAL: where a real signal lands in the bytecode and interrupted Manager-proxy calls are runtime behaviour; covered by line-level injection (every executed labtech line under serial in thorough) and real SIGINT runs.',
+    text='Proved (Hoare logic over an exception+tick monad, IntrProofs.v): for every graph, worker count, oracle and every position of one or two interrupts among the ticks (entries/exits of start_task, submit_task, executor.submit, wait, Future.result, complete_task, remove_results, cancel, stop), once an interrupt has been delivered the run ends with KeyboardInterrupt - never a normal return, LabError, or the KeyError of a re-yielded task (C14_interrupt_raises_KeyboardInterrupt), given the pop-before-yield generator, the LabError-swallowing drain/stop code and cancel-before-stop read from the source; each ingredient is shown necessary by a model witness that was replayed on the implementation (C14_refuted_without). Also proved: the except-branch starts no worker and records no submission (C14_handler_starts_nothing), a single interrupt terminates no worker (C14_single_interrupt_terminates_no_worker) and KeyboardInterrupt leaves run_tasks only once every registered future has been consumed (C14_single_interrupt_waits_for_registered); at line level, with the statement order read from _start_processes, an interrupt during the launch of a worker never finds the future outside both executor tables nor a started worker the executor does not know (C14_launch_never_loses_future, C14_launch_no_orphan_worker; refuted for the original order, defect D13). Clauses validated by injection rather than proved: no task started after the interrupt, running tasks finish and are cached, workers terminated after the second interrupt, cache consistency. PARTIAL: where a real signal lands in the bytecode and interrupted Manager-proxy calls are runtime behaviour; covered by line-level injection (every executed labtech line under serial in thorough) and real SIGINT runs.',
     design='6/C14', technique='Coq Hoare-logic proof over an interruptible coordinator model + exhaustive tick-level, line-level and real-signal injection',
     note='Theorems are about Model/Intr.v (TaskCoordinator.run try/except structure, process_completed_tasks, ProcessRunner.wait generator protocol, cancel/stop) with interrupts at ticks. Tie: Gen/SrcParams.v (pop-before-yield + KeyboardInterrupt let through in wait, drain loop / final call swallow LabError, cancel before stop, names bound before run_or_load_task\'s try) and correspondence: the same ticks are instrumented in the real code (monkeypatched method wrappers over gated real worker processes) and every single and sampled double interrupt position is compared (outcome, event trace, terminated workers). Print Assumptions: closed.')
 CHECKS['C03']['text'] += ' Object layer (Model/ObjPlan.v): the walk over task objects visits exactly the objects reachable from the requested objects without passing through a task served from the cache, each once, and its quotient by equality is the task-level plan (C03_object_walk_is_task_plan); completing a task marks every visited instance of it and no other object (C03_every_instance_marked); tied by comparing the marks left on real task objects with the model on every generated case.'
